@@ -27,6 +27,7 @@ from luna.gateware.usb.usb2.endpoint import USBEndpointMultiplexer, EndpointInte
 from luna.gateware.usb.usb2.packet import (USBTokenDetector, USBHandshakeDetector, USBHandshakeGenerator, USBDataPacketCRC,
                                            USBDataPacketReceiver, USBDataPacketGenerator, USBInterpacketTimer)
 from luna.gateware.interface.utmi import UTMIInterface, UTMIInterfaceMultiplexer
+from .c10_unsupported_requests_stall import hier, within, instance_regs, instance_reg, instance_path
 
 ALL_GROUPS = ("tokenizer", "handshakes_in", "rx", "state", "crc", "timer", "clear_halt", "tx", "handshakes_out", "commit")
 
@@ -166,24 +167,31 @@ def mux_wiring(n, groups=ALL_GROUPS):
                                z3.And(S["tx_first"] == E[k]["tx_first"], S["tx_last"] == E[k]["tx_last"])),
                     clause="... and first/last are that endpoint's (idle endpoints keep first/last low)")
             pid_selection(c, ts, "endpoint_mux_", [E[k]["tx_valid"] for k in R], [E[k]["tx_pid_toggle"] for k in R], S["tx_pid_toggle"],
-                          lambda name: True)
+                          instance_regs(ts, m, deep=True))
         if not c.invs:
             c.inv("no_state_needed", z3.BoolVal(True))
     return contract
 
 
-def pid_selection(c, ts, prefix, valids, pids, shared_pid, past_valid_reg):
-    """tx_pid_toggle: the PID of the endpoint that has a transmission going (valid now or in the previous cycle)."""
+def pid_selection(c, ts, prefix, valids, pids, shared_pid, mux_regs):
+    """tx_pid_toggle: the PID of the endpoint that has a transmission going (valid now or in the previous cycle).
+    mux_regs: [(own name, state variable)] of the flip-flops of the USBEndpointMultiplexer instance and of the modules below it
+    (instance_regs), whatever the parent calls the instance."""
     n = len(valids)
     pv = [c.ghost(f"{prefix}tx_valid_1_ago_{k}", 1, init=0) for k in range(n)]
     for k in range(n):
         c.set_next(pv[k], valids[k])
     # whatever register the multiplexer uses to remember "valid one cycle ago" equals the ghost: proposed for every flip-flop
-    # of that width in the multiplexer and kept only if inductive (Houdini) — no internal name is relied upon
+    # of that width in the multiplexer instance and kept only if inductive (Houdini) — no internal or instance name is relied
+    # upon (a multiplexer that keeps one flip-flop per interface: each 1-bit register may be any one of the history bits)
     hist = z3.Concat(*reversed(pv)) if n > 1 else pv[0]
-    for key, var in ts.state.items():
-        if key[0] == 'ff' and var.size() == n and past_valid_reg(str(var)):
-            c.candidate(f"{prefix}{str(var).replace('.', '_').replace('$', '_')}_is_previous_tx_valid", var == hist)
+    for j, (own_name, var) in enumerate(mux_regs):
+        label = f"{prefix}mux_register_{j}_{(own_name or 'anonymous').replace('$', '_')}"
+        if var.size() == n:
+            c.candidate(f"{label}_is_previous_tx_valid", var == hist)
+        elif var.size() == 1 and n > 1:
+            for k in range(n):
+                c.candidate(f"{label}_is_previous_tx_valid_of_{k}", var == pv[k])
     going = [z3.Or(valids[k] == 1, pv[k] == 1) for k in range(n)]
     for k in range(n):
         lone = z3.And(going[k], *[z3.Not(going[j]) for j in range(n) if j != k])
@@ -255,8 +263,42 @@ class Dev:
         self.rxr, self.gen, self.crc = one(USBDataPacketReceiver), one(USBDataPacketGenerator), one(USBDataPacketCRC)
         self.epmux, self.txmux = one(USBEndpointMultiplexer), one(UTMIInterfaceMultiplexer)
         self.of = lambda sig: term(ts, sig)
+        self.shared_timer, self.token_timer = timers_by_role(ts, self.td)
+        # the device's own state registers, by role: what the token detector filters on / what the endpoints are shown
+        self.address = device_register(ts, d, [self.td.address, self.epmux.shared.active_address], "address")
+        self.configuration = device_register(ts, d, [self.epmux.shared.active_config], "configuration")
         self.E = [Lazy(ts, iface_signals(e.interface)) for _, e in self.eps]
         self.names = [nm for nm, _ in self.eps]
+
+
+def timers_by_role(ts, td):
+    """-> (shared, private): the two USBInterpacketTimer instances of a USBDevice, told apart by ROLE, not by the names or the
+    order USBDevice.elaborate gives them: the token detector's private timer is the one built inside the token detector `td`;
+    the device's shared timer (users: data receiver, every endpoint) is the other one."""
+    timers = ts.instances(USBInterpacketTimer)
+    private = [t for t in timers if within(ts, t, td)]
+    shared = [t for t in timers if not within(ts, t, td)]
+    if len(private) != 1 or len(shared) != 1:
+        raise BindingError(f"expected one USBInterpacketTimer inside the token detector and one shared by the device, found "
+                           f"{[hier(ts, t) for t in private]} / {[hier(ts, t) for t in shared]}")
+    return shared[0], private[0]
+
+
+def device_register(ts, d, consumers, local_name):
+    """A state register that the parent `d` keeps in its own module (USBDevice holds its address and its configuration in
+    local Signals of elaborate()).  It is identified by ROLE: the flip-flop of d's own module that directly drives one of
+    `consumers` (input ports of real child instances).  Only if no consumer is driven directly by a register of d (a broken
+    or restructured connection) the parent's own name for the signal is used."""
+    own = [v for _, v in instance_regs(ts, d)]
+    for s in consumers:
+        try:
+            t = ts.of(s)
+        except BindingError:
+            continue
+        for v in own:
+            if v.eq(t):
+                return v
+    return ts.sig(instance_path(ts, d, local_name))
 
 
 def device_wiring(kind, groups):
@@ -281,7 +323,7 @@ def device_groups(c, D, groups):
                 z3.And(*[E[k]["tokenizer_" + f] == of(td.interface[f]) for f in TOKENIZER_FIELDS]),
                 clause="USBDevice + USBEndpointMultiplexer: every field of the endpoint's tokenizer record is driven by the device's "
                        "token detector (the leaf contracts' `mine` / in_token are computed from the same token for every endpoint)")
-        lem("token_detector_sees_device_speed_and_address", z3.And(of(td.speed) == speed, of(td.address) == ts.sig("address")),
+        lem("token_detector_sees_device_speed_and_address", z3.And(of(td.speed) == speed, of(td.address) == D.address),
             clause="the token detector's speed input is the device speed, its address filter the device's address register")
         lem("token_detector_listens_to_the_device_utmi_bus", z3.BoolVal(td.utmi is D.utmi and td.filter_by_address is True),
             clause="(instance parameters) the token detector observes the device's own UTMI receive lines and filters by address")
@@ -297,7 +339,7 @@ def device_groups(c, D, groups):
         lem("receiver_listens_to_the_device_utmi_bus", z3.BoolVal(rxr.utmi is D.utmi and not rxr.standalone),
             clause="(instance parameters) the data receiver observes the device's own UTMI receive lines and uses the shared CRC unit / timer")
         # the receiver's response timer is the device's shared timer (its timing: C05/USBDevice/wiring_*_timers)
-        regs = [v for k_, v in ts.state.items() if k_[0] == 'ff' and str(v).startswith("timer.") and '.' not in str(v)[6:]]
+        regs = [v for _, v in instance_regs(ts, D.shared_timer)]
         if len(regs) != 1:
             raise BindingError(f"expected the shared timer instance to hold exactly one register, found {regs}")
         c.ensure("receiver_timer_start_restarts_the_shared_timer", z3.Implies(of(rxr.timer.start) == 1, c.nx(regs[0]) == 0),
@@ -316,7 +358,7 @@ def device_groups(c, D, groups):
     if "state" in groups:
         for k in R:
             lem(f"{names[k]}_sees_device_speed_address_configuration",
-                z3.And(E[k]["speed"] == speed, E[k]["active_address"] == ts.sig("address"), E[k]["active_config"] == ts.sig("configuration")),
+                z3.And(E[k]["speed"] == speed, E[k]["active_address"] == D.address, E[k]["active_config"] == D.configuration),
                 clause="every endpoint sees the device's current speed, address register and configuration register")
         from luna.gateware.usb.usb2.reset import USBResetSequencer
         lem("device_speed_is_reset_sequencer_speed", speed == of(ts.instance(USBResetSequencer).current_speed),
@@ -326,7 +368,7 @@ def device_groups(c, D, groups):
         lem("every_crc_user_sees_the_crc_unit_output",
             z3.And(of(rxr.data_crc.crc) == unit_out, *[E[k]["data_crc_crc"] == unit_out for k in R]),
             clause="transmitter, receiver and every endpoint read the same shared CRC16 unit")
-        reg = ts.sig("data_crc.crc")
+        reg = instance_reg(ts, crc, "crc", width=16)      # the CRC unit's own 16-bit register, wherever the device put the unit
         starts = [of(gen.crc.start), of(rxr.data_crc.start)] + [E[k]["data_crc_start"] for k in R]
         for nm, s in zip(["transmitter", "receiver"] + names, starts):
             c.ensure(f"{nm}_crc_start_reseeds_the_crc_unit", z3.Implies(s == 1, c.nx(reg) == 0xFFFF),
@@ -375,7 +417,7 @@ def device_groups(c, D, groups):
                 clause="if exactly one endpoint has tx.valid, the byte handed to the data packet generator is that endpoint's "
                        "payload, whatever the other endpoints' buffers show")
         pid_selection(c, ts, "", [E[k]["tx_valid"] for k in R], [E[k]["tx_pid_toggle"] for k in R], of(gen.data_pid),
-                      lambda name: name.startswith("endpoint_mux."))
+                      instance_regs(ts, D.epmux, deep=True))
     if "utmi_tx" in groups:
         rs_tx = [i for i in D.txmux._inputs if i is not gen.tx and i is not hsg.tx]
         inputs = [("data_packet_generator", gen.tx), ("handshake_generator", hsg.tx)] + [(f"reset_sequencer_{j}", i) for j, i in enumerate(rs_tx)]
@@ -394,18 +436,19 @@ def device_groups(c, D, groups):
     if "commit" in groups:
         ce = E[0]
         c.ensure("address_register_follows_control_endpoint_commit",
-                 c.nx(ts.sig("address")) == z3.If(D.O["reset_detected"] == 1, bvc(0, 7),
-                                                   z3.If(ce["address_changed"] == 1, ce["new_address"], ts.sig("address"))),
+                 c.nx(D.address) == z3.If(D.O["reset_detected"] == 1, bvc(0, 7),
+                                          z3.If(ce["address_changed"] == 1, ce["new_address"], D.address)),
                  clause="the address register takes the control endpoint's new_address exactly when it strobes address_changed (bus reset: 0)")
         c.ensure("configuration_register_follows_control_endpoint_commit",
-                 c.nx(ts.sig("configuration")) == z3.If(D.O["reset_detected"] == 1, bvc(0, 8),
-                                                         z3.If(ce["config_changed"] == 1, ce["new_config"], ts.sig("configuration"))),
+                 c.nx(D.configuration) == z3.If(D.O["reset_detected"] == 1, bvc(0, 8),
+                                                z3.If(ce["config_changed"] == 1, ce["new_config"], D.configuration)),
                  clause="the configuration register takes the control endpoint's new_config exactly when it strobes config_changed")
         lem("stream_endpoints_never_commit", z3.And(*[z3.And(E[k]["address_changed"] == 0, E[k]["config_changed"] == 0) for k in R if k != 0]),
             clause="only the control endpoint can change address / configuration")
-        if ts.has("token_detector.token_data"):          # the detector's shift register (an incidental name: probed)
+        token_data = instance_path(ts, td, "token_data")  # the detector's own shift register (an incidental name: probed)
+        if ts.has(token_data):
             c.ensure("token_detector_filters_on_the_address_register",
-                     z3.Implies(c.nx(of(td.interface.new_token)) == 1, bits(ts.sig("token_detector.token_data"), 6, 0) == ts.sig("address")),
+                     z3.Implies(c.nx(of(td.interface.new_token)) == 1, bits(ts.sig(token_data), 6, 0) == D.address),
                      clause="the device's token detector is instantiated with address filtering: a token is reported only if its "
                             "address field equals the device's address register")
 
@@ -433,7 +476,7 @@ def device_timers(kind):
         start = z3.Or(*[s == 1 for _, s in starts])
         since = c.ghost("since_shared_timer_start", W, init=0)
         c.set_next(since, z3.If(start, bvc(0, W), z3.If(since == (1 << W) - 1, since, since + 1)))
-        elapsed_time_register(c, ts, "timer.", "shared_timer", since, top, W)
+        elapsed_time_register(c, ts, D.shared_timer, "shared_timer", since, top, W)
         ref = {p: E[0]["timer_" + p] for p in ("tx_allowed", "tx_timeout", "rx_timeout")}     # as seen by the control endpoint
         timing_table(c, tab, spn, speed, start, since, ref, "shared_timer", "at every endpoint's timer interface")
         c.lemma("all_shared_timer_users_see_the_same_indications",
@@ -441,7 +484,7 @@ def device_timers(kind):
                        of(D.rxr.timer.rx_timeout) == ref["rx_timeout"],
                        *[E[k]["timer_" + p] == ref[p] for k in R for p in ref]),
                 clause="the data receiver (ready_for_response for OUT/SETUP handshakes) and every endpoint see the same tx_allowed / tx_timeout / rx_timeout")
-        c.lemma("shared_timer_runs_at_device_speed", of(ts.paths[ts.resolve("timer.speed")]) == speed,
+        c.lemma("shared_timer_runs_at_device_speed", of(D.shared_timer.speed) == speed,
                 clause="the shared timer selects its delays with the device's current speed")
 
         # ---------------- the token detector's private timer: started when a token addressed to the device completes
@@ -449,7 +492,7 @@ def device_timers(kind):
         tok_start = nxt(of(td.interface.new_token)) == 1           # the strobe is registered: it is high one cycle after the start
         since_t = c.ghost("since_token", W, init=0)
         c.set_next(since_t, z3.If(tok_start, bvc(0, W), z3.If(since_t == (1 << W) - 1, since_t, since_t + 1)))
-        elapsed_time_register(c, ts, "token_detector.timer.", "token_timer", since_t, top, W)
+        elapsed_time_register(c, ts, D.token_timer, "token_timer", since_t, top, W)
         rfr = E[0]["tokenizer_ready_for_response"]
         for sp, row in tab.items():
             (lo,) = row["min"]
@@ -463,18 +506,18 @@ def device_timers(kind):
     return contract
 
 
-def elapsed_time_register(c, ts, module, label, since, top, W):
+def elapsed_time_register(c, ts, timer, label, since, top, W):
     """abstraction: the timer instance's counter is the elapsed time, saturated somewhere above the largest delay of the table.
-    Proposed for every flip-flop of the instance (module path prefix) and kept if inductive — the register's name is not used."""
+    Proposed for every flip-flop of the real timer instance `timer` (wherever it sits in the hierarchy and whatever its parent
+    calls it) and kept if inductive — neither the instance's nor the register's name is used."""
     n = 0
-    for key, var in ts.state.items():
-        nm = str(var)
-        if key[0] == 'ff' and nm.startswith(module) and '.' not in nm[len(module):] and var.size() <= W:
-            c.candidate(f"{label}_{nm[len(module):].replace('$', '_')}_is_elapsed_time",
+    for j, (own_name, var) in enumerate(instance_regs(ts, timer)):
+        if var.size() <= W:
+            c.candidate(f"{label}_{(own_name or f'register_{j}').replace('$', '_')}_is_elapsed_time",
                         z3.Or(zx(var, W) == since, z3.And(z3.UGT(since, top), z3.UGT(zx(var, W), top))))
             n += 1
     if not n:
-        raise BindingError(f"no flip-flop found in timer instance {module!r}")
+        raise BindingError(f"no flip-flop found in the {label} instance ({'.'.join(hier(ts, timer))})")
 
 
 def timing_table(c, tab, spn, speed, start, since, port, label, where):
